@@ -343,4 +343,186 @@ theorem vec_overflow_error (cap : Nat) (s : Schema) (bs : Bytes) (len : Nat) (r 
     simp only [Except.ok.injEq, Prod.mk.injEq] at h2
     omega
 
+/-! ## decoded values have the shape of their schema -/
+
+mutual
+/-- the value has the shape of the schema (no range conditions) -/
+def shaped : Schema → WVal → Bool
+  | .varU _, .nat _ => true
+  | .bool, .bool _ => true
+  | .bytesN _, .bytes _ => true
+  | .duration, .tuple [.nat _, .nat _] => true
+  | .vec _ s, .seq vs => vs.all (fun v => shaped s v)
+  | .tuple ss, .tuple vs => shapedTuple ss vs
+  | .enum ss, .variant i v => shapedVariant ss i v
+  | _, _ => false
+def shapedTuple : List Schema → List WVal → Bool
+  | [], [] => true
+  | s :: ss, v :: vs => shaped s v && shapedTuple ss vs
+  | _, _ => false
+def shapedVariant : List Schema → Nat → WVal → Bool
+  | [], _, _ => false
+  | s :: _, 0, v => shaped s v
+  | _ :: ss, i + 1, v => shapedVariant ss i v
+end
+
+theorem decElems_all (f : Bytes → Res) (P : WVal → Bool)
+    (hf : ∀ bs v rest, f bs = .ok (v, rest) → P v = true) :
+    ∀ (n room : Nat) (bs : Bytes) (vs : List WVal) (rest : Bytes),
+      decElems f n room bs = .ok (vs, rest) → vs.all P = true := by
+  intro n
+  induction n with
+  | zero => intro room bs vs rest h; simp [decElems] at h; simp [h.1]
+  | succ n ih =>
+    intro room bs vs rest h
+    simp only [decElems] at h
+    split at h
+    · cases h
+    · rename_i v r heq
+      cases room with
+      | zero => simp at h
+      | succ room =>
+        simp only at h
+        split at h
+        · rename_i vs' r' heq'
+          simp only [Except.ok.injEq, Prod.mk.injEq] at h
+          rw [← h.1]
+          simp only [List.all_cons, Bool.and_eq_true]
+          exact ⟨hf _ _ _ heq, ih room _ _ _ heq'⟩
+        · cases h
+
+mutual
+/-- every decoded value has the shape of its schema -/
+theorem dec_shaped : (s : Schema) → ∀ (bs : Bytes) (v : WVal) (rest : Bytes),
+    dec s bs = .ok (v, rest) → shaped s v = true
+  | .varU bits, bs, v, rest, h => by
+    simp only [dec] at h
+    split at h
+    · simp only [Except.ok.injEq, Prod.mk.injEq] at h; rw [← h.1]; rfl
+    · cases h
+  | .bool, bs, v, rest, h => by
+    simp only [dec] at h
+    split at h
+    · cases h
+    · split at h
+      · simp only [Except.ok.injEq, Prod.mk.injEq] at h; rw [← h.1]; rfl
+      · split at h
+        · simp only [Except.ok.injEq, Prod.mk.injEq] at h; rw [← h.1]; rfl
+        · cases h
+  | .bytesN n, bs, v, rest, h => by
+    simp only [dec] at h
+    split at h
+    · cases h
+    · split at h
+      · cases h
+      · split at h
+        · simp only [Except.ok.injEq, Prod.mk.injEq] at h; rw [← h.1]; rfl
+        · cases h
+  | .duration, bs, v, rest, h => by
+    simp only [dec] at h
+    split at h
+    · cases h
+    · split at h
+      · cases h
+      · split at h
+        · simp only [Except.ok.injEq, Prod.mk.injEq] at h; rw [← h.1]; rfl
+        · cases h
+  | .vec cap s, bs, v, rest, h => by
+    simp only [dec] at h
+    split at h
+    · cases h
+    · split at h
+      · rename_i vs r' heq'
+        simp only [Except.ok.injEq, Prod.mk.injEq] at h
+        rw [← h.1]
+        simp only [shaped]
+        exact decElems_all (dec s) (fun v => shaped s v)
+          (fun bs v rest hh => dec_shaped s bs v rest hh) _ _ _ _ _ heq'
+      · cases h
+  | .tuple ss, bs, v, rest, h => by
+    simp only [dec] at h
+    split at h
+    · rename_i vs r heq
+      simp only [Except.ok.injEq, Prod.mk.injEq] at h
+      rw [← h.1]
+      simp only [shaped]
+      exact decTuple_shaped ss _ _ _ heq
+    · cases h
+  | .enum ss, bs, v, rest, h => by
+    simp only [dec] at h
+    split at h
+    · cases h
+    · split at h
+      · rename_i p r' heq'
+        simp only [Except.ok.injEq, Prod.mk.injEq] at h
+        rw [← h.1]
+        simp only [shaped]
+        exact decVariant_shaped ss _ _ _ _ heq'
+      · cases h
+theorem decTuple_shaped : (ss : List Schema) → ∀ (bs : Bytes) (vs : List WVal) (rest : Bytes),
+    decTuple ss bs = .ok (vs, rest) → shapedTuple ss vs = true
+  | [], bs, vs, rest, h => by
+    simp [decTuple] at h; rw [h.1]; rfl
+  | s :: ss, bs, vs, rest, h => by
+    simp only [decTuple] at h
+    split at h
+    · cases h
+    · rename_i v r heq
+      split at h
+      · rename_i vs' r' heq'
+        simp only [Except.ok.injEq, Prod.mk.injEq] at h
+        rw [← h.1]
+        simp only [shapedTuple, Bool.and_eq_true]
+        exact ⟨dec_shaped s _ _ _ heq, decTuple_shaped ss _ _ _ heq'⟩
+      · cases h
+theorem decVariant_shaped : (ss : List Schema) → ∀ (i : Nat) (bs : Bytes) (v : WVal) (rest : Bytes),
+    decVariant ss i bs = .ok (v, rest) → shapedVariant ss i v = true
+  | [], i, bs, v, rest, h => by simp [decVariant] at h
+  | s :: ss, 0, bs, v, rest, h => by
+    simp only [decVariant] at h
+    simp only [shapedVariant]
+    exact dec_shaped s bs v rest h
+  | s :: ss, i + 1, bs, v, rest, h => by
+    simp only [decVariant] at h
+    simp only [shapedVariant]
+    exact decVariant_shaped ss i bs v rest h
+end
+
+theorem shaped_varU {b : Nat} {v : WVal} (h : shaped (.varU b) v = true) : ∃ n, v = .nat n := by
+  cases v <;> simp [shaped] at h
+  exact ⟨_, rfl⟩
+theorem shaped_bool {v : WVal} (h : shaped .bool v = true) : ∃ b, v = .bool b := by
+  cases v <;> simp [shaped] at h
+  exact ⟨_, rfl⟩
+theorem shaped_bytesN {n : Nat} {v : WVal} (h : shaped (.bytesN n) v = true) : ∃ b, v = .bytes b := by
+  cases v <;> simp [shaped] at h
+  exact ⟨_, rfl⟩
+theorem shaped_vec {c : Nat} {s : Schema} {v : WVal} (h : shaped (.vec c s) v = true) :
+    ∃ vs, v = .seq vs ∧ vs.all (fun x => shaped s x) = true := by
+  cases v <;> simp only [shaped] at h <;> try cases h
+  exact ⟨_, rfl, h⟩
+theorem shaped_tuple {ss : List Schema} {v : WVal} (h : shaped (.tuple ss) v = true) :
+    ∃ vs, v = .tuple vs ∧ shapedTuple ss vs = true := by
+  cases v <;> simp only [shaped] at h <;> try cases h
+  exact ⟨_, rfl, h⟩
+theorem shaped_enum {ss : List Schema} {v : WVal} (h : shaped (.enum ss) v = true) :
+    ∃ i p, v = .variant i p ∧ shapedVariant ss i p = true := by
+  cases v <;> simp only [shaped] at h <;> try cases h
+  exact ⟨_, _, rfl, h⟩
+
+theorem shapedTuple_get : ∀ (ss : List Schema) (vs : List WVal), shapedTuple ss vs = true →
+    ∀ (k : Nat) (s : Schema), ss[k]? = some s → ∃ v, vs[k]? = some v ∧ shaped s v = true := by
+  intro ss
+  induction ss with
+  | nil => intro vs _ k s hk; simp at hk
+  | cons s0 ss ih =>
+    intro vs h k s hk
+    cases vs with
+    | nil => simp [shapedTuple] at h
+    | cons v vs =>
+      simp only [shapedTuple, Bool.and_eq_true] at h
+      cases k with
+      | zero => simp at hk; subst hk; exact ⟨v, by simp, h.1⟩
+      | succ k => simp at hk; simpa using ih vs h.2 k s hk
+
 end AranyaV.Postcard
